@@ -15,6 +15,8 @@ CONSTANTS MaxN,        \* arrays of length 0 .. MaxN
           UseImpl      \* TRUE: compare with the implementation table in env IMPL_FILE
 
 Impl == IF UseImpl THEN JsonDeserialize(IOEnv.IMPL_FILE) ELSE <<>>
+\* evaluated once, single-threaded, before the workers start (TLC caches the value of a constant definition)
+ASSUME ImplLoaded == UseImpl => Len(Impl) > 0
 
 VARIABLES b, m, pos, runStart, out, stage, agree
 vars == <<b, m, pos, runStart, out, stage, agree>>
